@@ -47,6 +47,10 @@ TraceStart ==
         /\ Report(allviol \cup bad, drift, brs)
   /\ l' = l + 1 /\ UNCHANGED <<drift, brs>>
 
+MaxPerPred == 40
+AddViol(av, pairs) ==
+  av \cup {p \in pairs : Cardinality({v \in av : v[1] = p[1]}) < MaxPerPred}
+
 InputOf(ln) ==
   CASE ln.ev \in {"press", "release"} -> [ev |-> ln.ev, k |-> ln.k]
     [] ln.ev = "disconnect" -> [ev |-> "disconnect"]
@@ -60,9 +64,9 @@ TraceKey ==
         /\ Observe(in, r, Line.o, Line.sg, StateLst(Line))
         /\ LET e2 == IF r.br = "Panic" THEN {} ELSE ext
                fj == FrameJudgement(cfg, colr, lay, r.s, e2, FrameOf(Line), seen)
-               nv == allviol \cup {<<n, l>> : n \in viol'}
+               nv == AddViol(allviol, {<<n, l>> : n \in viol'}
                      \cup (IF ~Judged(Line) THEN {}
-                           ELSE IF Line.led_active THEN {<<n, l>> : n \in fj.fail} ELSE {<<"C17_LedActive", l>>})
+                           ELSE IF Line.led_active THEN {<<n, l>> : n \in fj.fail} ELSE {<<"C17_LedActive", l>>}))
            IN /\ ext' = e2 /\ seen' = (IF Judged(Line) THEN fj.seen ELSE seen) /\ allviol' = nv /\ brs' = Inc(brs, r.br)
               /\ drift' = drift \cup (IF Conforms(Line.o, r) THEN {} ELSE {<<l, "output">>})
               /\ Report(nv, drift', brs')
@@ -73,10 +77,10 @@ TraceMidiIn ==
   /\ LET e2 == MidiInNext(ext, Line.msgin)
          fj == FrameJudgement(cfg, colr, lay, st, e2, FrameOf(Line), seen)
          cleared == (Len(Line.msgin) = 3 /\ (IsOff(Line.msgin) \/ (IsOn(Line.msgin) /\ Line.msgin[3] = 0)))
-         nv == allviol \cup (IF ~Judged(Line) THEN {} ELSE IF Line.led_active
+         nv == AddViol(allviol, (IF ~Judged(Line) THEN {} ELSE IF Line.led_active
                                THEN {<<(IF n = "C17_NoteKeys" /\ cleared THEN "C17_ExternalCleared" ELSE n), l>> : n \in fj.fail}
                                ELSE {<<"C17_LedActive", l>>})
-                       \cup (IF Line.o = <<>> THEN {} ELSE {<<"C16_NoCrossTalk", l>>})
+                       \cup (IF Line.o = <<>> THEN {} ELSE {<<"C16_NoCrossTalk", l>>}))
      IN /\ ext' = e2 /\ seen' = (IF Judged(Line) THEN fj.seen ELSE seen) /\ allviol' = nv /\ brs' = Inc(brs, "MidiIn")
         /\ Report(nv, drift, brs')
   /\ l' = l + 1 /\ UNCHANGED <<vars, drift, lay, colr>>
